@@ -508,6 +508,72 @@ theorem Refs.del_spec (f : Nat → Nat) : ∀ (r : Refs) (t id : Nat) (r' : Refs
             · exact Or.inr ((j2 x).2 ⟨h2, hne⟩)
 
 
+theorem swapRemoveS_subset : ∀ (l : List Nat) (id : Nat) (l' : List Nat), swapRemoveS l id = some l' → ∀ x, x ∈ l' → x ∈ l := by
+  intro l
+  induction l with
+  | nil => intro id l' h; simp [swapRemoveS] at h
+  | cons y ys ih =>
+    intro id l' h x hx
+    unfold swapRemoveS at h
+    by_cases hy : y = id
+    · rw [if_pos hy] at h
+      cases hl : ys.getLast? with
+      | none => simp only [hl, Option.some.injEq] at h; subst h; simp at hx
+      | some last =>
+        obtain ⟨zs, hzs⟩ := List.getLast?_eq_some_iff.1 hl
+        simp only [hl, Option.some.injEq] at h
+        subst h
+        rw [hzs, List.dropLast_concat] at hx
+        rw [hzs]
+        rcases List.mem_cons.1 hx with h1 | h1
+        · rw [h1]; simp
+        · exact List.mem_cons_of_mem _ (List.mem_append_left _ h1)
+    · rw [if_neg hy] at h
+      cases hr : swapRemoveS ys id with
+      | none => simp [hr] at h
+      | some r =>
+        simp only [hr, Option.some.injEq] at h
+        subst h
+        rcases List.mem_cons.1 hx with h1 | h1
+        · rw [h1]; exact List.mem_cons_self
+        · exact List.mem_cons_of_mem _ (ih id r hr x h1)
+
+/-- deletion only removes ids (no duplicate-freeness needed) -/
+theorem Refs.del_subset : ∀ {r : Refs} {t id : Nat} {r' : Refs}, Refs.del r t id = some r' → ∀ x, x ∈ Refs.ids r' → x ∈ Refs.ids r := by
+  intro r
+  induction r with
+  | nil => intro t id r' h; simp [Refs.del] at h
+  | cons p rest ih =>
+    intro t id r' h x hx
+    obtain ⟨t', l⟩ := p
+    unfold Refs.del at h
+    by_cases h1 : t = t'
+    · rw [if_pos h1, swapRemove_eq] at h
+      cases hs : swapRemoveS l id with
+      | none => simp [hs] at h
+      | some l' =>
+        simp only [hs] at h
+        have hsub := swapRemoveS_subset l id l' hs
+        rw [Refs.ids_cons]
+        split at h
+        · simp only [Option.some.injEq] at h; subst h
+          exact List.mem_append_right _ hx
+        · simp only [Option.some.injEq] at h; subst h
+          rw [Refs.ids_cons] at hx
+          rcases List.mem_append.1 hx with h2 | h2
+          · exact List.mem_append_left _ (hsub x h2)
+          · exact List.mem_append_right _ h2
+    · rw [if_neg h1] at h
+      cases hr : Refs.del rest t id with
+      | none => simp [hr] at h
+      | some r2 =>
+        simp only [hr, Option.some.injEq] at h
+        subst h
+        rw [Refs.ids_cons] at hx ⊢
+        rcases List.mem_append.1 hx with h2 | h2
+        · exact List.mem_append_left _ h2
+        · exact List.mem_append_right _ (ih hr x h2)
+
 /-! ### what the streamer still owes to its open (upcoming or active) streams -/
 
 def termS (ss : List Stream) (id : Nat) (i : Nat) : Nat :=
@@ -850,6 +916,106 @@ theorem streamsOf_spec (ss : List Stream) (hid : SidOK ss) : ∀ (ids : List Nat
         · subst h; exact ⟨by rw [hid0]; exact hg, by rw [hid0]; exact List.mem_cons_self⟩
         · exact ⟨(i2 st h).1, List.mem_cons_of_mem _ (i2 st h).2⟩
 
+/-! ### sorting the stream list by id (fix D2) -/
+
+theorem insertById_spec (st : Stream) : ∀ (l : List Stream), ∃ a b, l = a ++ b ∧ insertById st l = a ++ [st] ++ b ∧
+    (∀ x ∈ a, x.id < st.id) ∧ (∀ x, b.head? = some x → st.id ≤ x.id) := by
+  intro l
+  induction l with
+  | nil => exact ⟨[], [], rfl, rfl, by simp, by simp⟩
+  | cons x xs ih =>
+    unfold insertById
+    by_cases h : st.id ≤ x.id
+    · rw [if_pos h]
+      exact ⟨[], x :: xs, rfl, rfl, by simp, by intro y hy; simp at hy; rw [← hy]; exact h⟩
+    · rw [if_neg h]
+      obtain ⟨a, b, e1, e2, e3, e4⟩ := ih
+      refine ⟨x :: a, b, by rw [e1]; rfl, by rw [e2]; rfl, ?_, e4⟩
+      intro y hy
+      rcases List.mem_cons.1 hy with h1 | h1
+      · rw [h1]; omega
+      · exact e3 y h1
+
+theorem mem_insertById (st : Stream) (l : List Stream) (y : Stream) : y ∈ insertById st l ↔ y = st ∨ y ∈ l := by
+  obtain ⟨a, b, e1, e2, _, _⟩ := insertById_spec st l
+  rw [e2, e1]; simp only [List.mem_append, List.mem_singleton]
+  constructor
+  · intro h; rcases h with (h | h) | h
+    · exact Or.inr (Or.inl h)
+    · exact Or.inl h
+    · exact Or.inr (Or.inr h)
+  · intro h; rcases h with h | h | h
+    · exact Or.inl (Or.inr h)
+    · exact Or.inl (Or.inl h)
+    · exact Or.inr h
+
+theorem mem_sortById (l : List Stream) (y : Stream) : y ∈ sortById l ↔ y ∈ l := by
+  induction l with
+  | nil => simp [sortById]
+  | cons x xs ih =>
+    unfold sortById
+    rw [mem_insertById, ih]; simp only [List.mem_cons]
+
+theorem nodup_insertById (st : Stream) (l : List Stream) (hn : (l.map (·.id)).Nodup) (hid : st.id ∉ l.map (·.id)) :
+    ((insertById st l).map (·.id)).Nodup := by
+  obtain ⟨a, b, e1, e2, _, _⟩ := insertById_spec st l
+  rw [e2]
+  rw [e1] at hn hid
+  simp only [List.map_append, List.map_cons, List.map_nil] at hn hid ⊢
+  obtain ⟨n1, n2, n3⟩ := List.nodup_append.1 hn
+  rw [List.append_assoc, List.nodup_append]
+  refine ⟨n1, ?_, ?_⟩
+  · rw [List.singleton_append, List.nodup_cons]
+    exact ⟨fun hm => hid (List.mem_append_right _ hm), n2⟩
+  · intro x hx y hy
+    rcases List.mem_append.1 hy with h1 | h1
+    · simp at h1; subst h1
+      intro he; exact hid (List.mem_append_left _ (by rw [← he]; exact hx))
+    · exact n3 x hx y h1
+
+theorem nodup_sortById (l : List Stream) (hn : (l.map (·.id)).Nodup) : ((sortById l).map (·.id)).Nodup := by
+  induction l with
+  | nil => simp [sortById]
+  | cons x xs ih =>
+    have hn0 : (x.id :: xs.map (·.id)).Nodup := hn
+    obtain ⟨h1, h2⟩ := List.nodup_cons.1 hn0
+    unfold sortById
+    apply nodup_insertById _ _ (ih h2)
+    intro hm
+    obtain ⟨y, hy, he⟩ := List.mem_map.1 hm
+    exact h1 (by rw [← he]; exact List.mem_map_of_mem (f := (·.id)) ((mem_sortById xs y).1 hy))
+
+/-- the ids of the sorted list are non-decreasing -/
+theorem sorted_insertById (st : Stream) (l : List Stream) (hs : (l.map (·.id)).Pairwise (· ≤ ·)) :
+    ((insertById st l).map (·.id)).Pairwise (· ≤ ·) := by
+  induction l with
+  | nil => simp [insertById]
+  | cons x xs ih =>
+    have hs0 : (x.id :: xs.map (·.id)).Pairwise (· ≤ ·) := hs
+    obtain ⟨p1, p2⟩ := List.pairwise_cons.1 hs0
+    unfold insertById
+    by_cases h : st.id ≤ x.id
+    · rw [if_pos h]
+      simp only [List.map_cons]
+      refine List.pairwise_cons.2 ⟨?_, hs0⟩
+      intro y hy
+      rcases List.mem_cons.1 hy with h1 | h1
+      · rw [h1]; exact h
+      · exact Nat.le_trans h (p1 y h1)
+    · rw [if_neg h]
+      simp only [List.map_cons]
+      refine List.pairwise_cons.2 ⟨?_, ih p2⟩
+      intro y hy
+      obtain ⟨z, hz, he⟩ := List.mem_map.1 hy
+      rcases (mem_insertById st xs z).1 hz with h1 | h1
+      · rw [← he, h1]; omega
+      · exact p1 y (by rw [← he]; exact List.mem_map_of_mem (f := (·.id)) h1)
+
+theorem sorted_sortById (l : List Stream) : ((sortById l).map (·.id)).Pairwise (· ≤ ·) := by
+  induction l with
+  | nil => simp [sortById]
+  | cons x xs ih => unfold sortById; exact sorted_insertById x _ ih
+
 /-- input condition of `Distribute`: distinct exact copies of stored streams that are in the active list -/
 def GoodInput (s : State) (l : List Stream) : Prop :=
   (l.map (·.id)).Nodup ∧ ∀ st ∈ l, getS s.streams st.id = some st ∧ st.id ∈ s.active.ids
@@ -862,6 +1028,9 @@ theorem activeStreamsFor_good (s : State) (hs : SStruct s) (e : Nat) : GoodInput
   obtain ⟨a, b⟩ := activeStreams_good s hs
   unfold activeStreamsFor
   exact ⟨a.sublist ((List.filter_sublist).map _), fun st hst => b st (List.mem_filter.1 hst).1⟩
+
+theorem sortById_good (s : State) (l : List Stream) (h : GoodInput s l) : GoodInput s (sortById l) :=
+  ⟨nodup_sortById l h.1, fun st hst => h.2 st ((mem_sortById l st).1 hst)⟩
 
 /-- stream-cache invariant together with "the cache holds the same ids as the input" -/
 def SCI2 (ss : List Stream) (ids : List Nat) (c : Caches) : Prop := SCI ss c ∧ c.streams.map (·.id) = ids
@@ -928,10 +1097,11 @@ theorem strDistribute_streams (s : State) (es : List Nat) (streams : List Stream
     SStruct s' ∧ StreamsMono s.streams s'.streams ∧
     ((∀ i, owedL s i ≤ amt (s.bank.get streamerAddr) i) → NoOver s'.streams →
       ∀ i, owedL s' i ≤ amt (s'.bank.get streamerAddr) i) := by
+  have hin := sortById_good s streams hin
   unfold strDistribute at h
-  have hci := ptrLoop_CI s hg.ids maxOps (sortByDuration es) 0 ⟨streams, [], []⟩ s.ptrs
+  have hci := ptrLoop_CI s hg.ids maxOps (sortByDuration es) 0 ⟨sortById streams, [], []⟩ s.ptrs
     ⟨by simp, by simp, by intro i; simp [extras]⟩
-  have hsci := ptrLoop_SCI2 s s.streams (streams.map (·.id)) maxOps (sortByDuration es) 0 ⟨streams, [], []⟩ s.ptrs
+  have hsci := ptrLoop_SCI2 s s.streams ((sortById streams).map (·.id)) maxOps (sortByDuration es) 0 ⟨sortById streams, [], []⟩ s.ptrs
     ⟨⟨hin.1, fun st hst => ⟨st, (hin.2 st hst).1, rfl, fun _ => Nat.le_refl _⟩, by
         intro i
         unfold sExtras
@@ -939,7 +1109,7 @@ theorem strDistribute_streams (s : State) (es : List Nat) (streams : List Stream
         intro x hx
         obtain ⟨st, hst, he⟩ := List.mem_map.1 hx
         rw [← he]; unfold sExtra storedDist; rw [(hin.2 st hst).1]; simp⟩, rfl⟩
-  generalize ptrLoop s maxOps (sortByDuration es) 0 ⟨streams, [], []⟩ s.ptrs = res at h hci hsci
+  generalize ptrLoop s maxOps (sortByDuration es) 0 ⟨sortById streams, [], []⟩ s.ptrs = res at h hci hsci
   obtain ⟨tot, c, ps⟩ := res
   dsimp only at h hci hsci
   obtain ⟨ci1, ci2, ci3⟩ := hci
@@ -963,7 +1133,7 @@ theorem strDistribute_streams (s : State) (es : List Nat) (streams : List Stream
     have hall : ∀ st ∈ c.streams, SCoh s2.streams st ∧ st.id ∈ s2.active.ids := by
       intro st hst
       refine ⟨by rw [e1]; exact sc2 st hst, ?_⟩
-      have : st.id ∈ streams.map (·.id) := by rw [← sc4]; exact List.mem_map_of_mem (f := (·.id)) hst
+      have : st.id ∈ (sortById streams).map (·.id) := by rw [← sc4]; exact List.mem_map_of_mem (f := (·.id)) hst
       obtain ⟨y, hy, he⟩ := List.mem_map.1 this
       rw [e2, ← he]; exact (hin.2 y hy).2
     obtain ⟨q1, q2, q3, _, q5⟩ := saveStreams_spec ee c.streams s2 s' hs2 sc1 hall hsave
@@ -1150,7 +1320,6 @@ theorem streamerBeforeEpochStart_sstep (s : State) (e : Nat) (s' : State) (hs : 
 theorem streamerAfterEpochEnd_sstep (s : State) (e : Nat) (s' : State) (hg : GInv s) (hs : SStruct s)
     (h : streamerAfterEpochEnd s e = .ok s') : SStep s s' := by
   unfold streamerAfterEpochEnd at h
-  dsimp only at h
   split at h
   · simp only [Except.ok.injEq] at h; subst h; exact SStep.refl hs
   · cases hd : strDistribute s [e] (activeStreamsFor s e) maxU64 true with
@@ -1438,40 +1607,43 @@ theorem createStream_sstep (s : State) (hs : SStruct s) (c : Coins) (rs : List R
                     omega
 
 
+theorem moveToFinished_sstep (s : State) (hs : SStruct s) (b : Bool) (st : Stream) (s' : State)
+    (h : moveToFinished s b st = some s') : SStep s s' := by
+  unfold moveToFinished at h
+  cases b with
+  | true =>
+    simp only [if_true] at h
+    cases hd : Refs.del s.active st.start st.id with
+    | none => simp [hd] at h
+    | some r =>
+      simp only [hd] at h
+      cases hf : Refs.add s.finished st.start st.id with
+      | none => simp [hf] at h
+      | some f =>
+        simp only [hf, Option.some.injEq] at h
+        subst h
+        obtain ⟨r1, r2, _⟩ := remove_active s hs _ _ r f hd
+        exact ⟨r1, StreamsMono.refl _, fun hsol _ i => by have := r2 i; have := hsol i; show owedL _ i ≤ amt (s.bank.get streamerAddr) i; omega⟩
+  | false =>
+    simp only [Bool.false_eq_true, if_false] at h
+    cases hd : Refs.del s.upcoming st.start st.id with
+    | none => simp [hd] at h
+    | some r =>
+      simp only [hd] at h
+      cases hf : Refs.add s.finished st.start st.id with
+      | none => simp [hf] at h
+      | some f =>
+        simp only [hf, Option.some.injEq] at h
+        subst h
+        obtain ⟨r1, r2, _⟩ := remove_upcoming s hs _ _ r hd
+        have hfr : SStep { s with upcoming := r } { s with upcoming := r, finished := f } :=
+          SStep.of_frame r1 rfl rfl rfl (fun _ => Nat.le_refl _)
+        exact SStep.trans ⟨r1, StreamsMono.refl _, fun hsol _ i => by have := r2 i; have := hsol i; show owedL _ i ≤ amt (s.bank.get streamerAddr) i; omega⟩ hfr
+
 theorem terminateStream_sstep (s : State) (hs : SStruct s) (id : Nat) : SStep s (terminateStream s id).2 := by
   unfold terminateStream
-  cases hg : getStream s id with
-  | none => exact SStep.refl hs
-  | some st =>
-    simp only
-    split
-    · exact SStep.refl hs
-    · by_cases hact : st.isActive s.now = true
-      · simp only [hact, if_true]
-        cases hd : Refs.del s.active st.start st.id with
-        | none => exact SStep.refl hs
-        | some r =>
-          simp only
-          cases hf : Refs.add s.finished st.start st.id with
-          | none => exact SStep.refl hs
-          | some f =>
-            simp only
-            obtain ⟨r1, r2, _⟩ := remove_active s hs _ _ r f hd
-            exact ⟨r1, StreamsMono.refl _, fun hsol _ i => by have := r2 i; have := hsol i; show owedL _ i ≤ amt (s.bank.get streamerAddr) i; omega⟩
-      · have hact' : st.isActive s.now = false := by simpa using hact
-        simp only [hact', Bool.false_eq_true, if_false]
-        cases hd : Refs.del s.upcoming st.start st.id with
-        | none => exact SStep.refl hs
-        | some r =>
-          simp only
-          cases hf : Refs.add s.finished st.start st.id with
-          | none => exact SStep.refl hs
-          | some f =>
-            simp only
-            obtain ⟨r1, r2, _⟩ := remove_upcoming s hs _ _ r hd
-            have hfr : SStep { s with upcoming := r } { s with upcoming := r, finished := f } :=
-              SStep.of_frame r1 rfl rfl rfl (fun _ => Nat.le_refl _)
-            exact SStep.trans ⟨r1, StreamsMono.refl _, fun hsol _ i => by have := r2 i; have := hsol i; show owedL _ i ≤ amt (s.bank.get streamerAddr) i; omega⟩ hfr
+  repeat' (first | split | dsimp only)
+  all_goals first | exact SStep.refl hs | (exact moveToFinished_sstep _ hs _ _ _ (by assumption))
 
 theorem replaceDistr_sstep (s : State) (hs : SStruct s) (id : Nat) (rs : List Rec) : SStep s (replaceDistr s id rs).2 := by
   unfold replaceDistr
